@@ -121,6 +121,70 @@ theorem error_level0_no_prefix (r : Rec) (stack : List Nat) (msg : Bytes) (s : S
   simp only [show ¬ (0 + 1 + 1 < 2) by omega, ↓reduceIte, hz]
   exact raise_without_handler r stack (.str msg) s
 
+/-! ### the `coroutine.resume` boundary -/
+
+/-- a `yield` is not an error: `pcall` lets it pass (a coroutine may yield across a protected call) -/
+theorem yield_passes_pcall (r : Rec) (dyn : Dyn) (f : Val) (args : List Val) {s vs s'}
+    (h : Evals (r.call ⟨0 :: dyn.stack, none⟩ f args) s (.error (.yield vs)) s') :
+    Evals (builtinCall r dyn .pcall (f :: args)) s (.error (.yield vs)) s' := by
+  unfold builtinCall
+  simp only [List.isEmpty_cons, Bool.false_eq_true, ↓reduceIte, List.headD_cons, List.tail_cons]
+  exact evals_bind_err (evals_tryLua_other h (by intro v hd hh; cases hh))
+
+/-- … and a to-be-closed scope stays open while its coroutine is suspended: the scope reacts to Lua errors and to
+    `coroutine.close` only -/
+theorem yield_leaves_tbc_open {α} (x : M α) {s vs s'} (h : Evals x s (.error (.yield vs)) s') :
+    Evals (tryTbc x) s (.error (.yield vs)) s' := evals_tryTbc_yield h
+
+/-- in a running coroutine, live, `coroutine.yield(vs)` suspends with exactly those values and leaves the store as it is -/
+theorem yield_suspends (r : Rec) (dyn : Dyn) (vs : List Val) (s : Store)
+    (hco : s.costack.isEmpty = false) (hlive : s.replay = []) :
+    Evals (yieldCo r dyn vs) s (.error (.yield vs)) s := by
+  unfold yieldCo
+  refine evals_bind_ok (evals_getS s) ?_
+  simp only [hco, Bool.false_eq_true, ↓reduceIte]
+  exact evals_bind_ok (evals_nextLog_live s hlive) (evals_throw _ _)
+
+/-- yielding from the main thread is a runtime error -/
+theorem yield_outside_coroutine (r : Rec) (stack : List Nat) (vs : List Val) (s : Store) (hmain : s.costack = []) :
+    Evals (yieldCo r ⟨stack, none⟩ vs) s
+      (.error (.lua (.ofString (posPrefix (stack.headD 0) ++ "!" ++ "yieldmain")) false)) s := by
+  unfold yieldCo
+  refine evals_bind_ok (evals_getS s) ?_
+  simp only [hmain, List.isEmpty_nil, ↓reduceIte]
+  unfold rtError
+  exact raise_without_handler r stack _ s
+
+/-- `error_value_identity` at the resume boundary: when the body of a coroutine ends with the Lua error value `v`,
+    running it reports `false, v` — the value itself — and the coroutine is dead, died with `v` -/
+theorem resume_catches_error (r : Rec) (co : Nat) (c : CoState) (first : List Val) (log : List LogEntry) {s v hd s1}
+    (hbody : Evals (r.call ⟨[0], none⟩ c.fn first)
+      { s with cos := s.cos.setIfInBounds co { c with started := true, args := first },
+               costack := co :: s.costack, recs := log.reverse :: s.recs, replay := log } (.error (.lua v hd)) s1)
+    (hdone : s1.replay = []) :
+    Evals (coRun r co c first log) s (.ok (false, [v]))
+      { s1 with costack := s1.costack.tail, recs := s1.recs.tail, replay := [],
+                cos := s1.cos.setIfInBounds co
+                  { (s1.cos.getD co default) with dead := true, err := some v, log := (s1.recs.headD []).reverse } } := by
+  unfold coRun
+  refine evals_bind_ok (evals_modify _ s) (evals_bind_ok (evals_tryCo_err hbody) (evals_bind_ok (evals_getS s1) ?_))
+  simp only [hdone, List.isEmpty_nil, Bool.not_true, Bool.false_eq_true, ↓reduceIte]
+  exact evals_bind_ok (evals_modify _ s1) (evals_pure _ _)
+
+/-- when the body yields `vs`, running it reports `true, vs` and the coroutine stays alive with its log extended -/
+theorem resume_returns_yielded (r : Rec) (co : Nat) (c : CoState) (first : List Val) (log : List LogEntry) {s vs s1}
+    (hbody : Evals (r.call ⟨[0], none⟩ c.fn first)
+      { s with cos := s.cos.setIfInBounds co { c with started := true, args := first },
+               costack := co :: s.costack, recs := log.reverse :: s.recs, replay := log } (.error (.yield vs)) s1)
+    (hdone : s1.replay = []) :
+    Evals (coRun r co c first log) s (.ok (true, vs))
+      { s1 with costack := s1.costack.tail, recs := s1.recs.tail, replay := [],
+                cos := s1.cos.setIfInBounds co { (s1.cos.getD co default) with log := (s1.recs.headD []).reverse } } := by
+  unfold coRun
+  refine evals_bind_ok (evals_modify _ s) (evals_bind_ok (evals_tryCo_yield hbody) (evals_bind_ok (evals_getS s1) ?_))
+  simp only [hdone, List.isEmpty_nil, Bool.not_true, Bool.false_eq_true, ↓reduceIte]
+  exact evals_bind_ok (evals_modify _ s1) (evals_pure _ _)
+
 /-! ## Part 2 — the model of golua's error routing -/
 
 open ErrRoute
@@ -329,12 +393,26 @@ example : (match run default 16 [.local_ 1 [("t", .none)] [.table []],
                [.call (.var "pcall") [.func (.mk [] false [.callS 2 (.call (.var "error") [.var "t"])])]],
              .return_ 3 [.var "ok", .bin .eq (.var "e") (.var "t")]] [] with
            | .done rets _ => rets
-           | _ => []) = [.bool false, .bool true] := by decide
+           | _ => []) = [.bool false, .bool true] := by decide +kernel
 
 /-- `return pcall(function()` / `  error("x")` / `end)` gives `false, "chunk:2: x"` -/
 example : (match run default 16 [.return_ 1 [.call (.var "pcall")
                [.func (.mk [] false [.callS 2 (.call (.var "error") [.str "x".toUTF8])])]]] [] with
            | .done rets _ => rets
-           | _ => []) = [.bool false, .ofString "chunk:2: x"] := by decide
+           | _ => []) = [.bool false, .ofString "chunk:2: x"] := by decide +kernel
+
+/-- `local t = {}; local co = coroutine.create(function() coroutine.yield(1); error(t) end); coroutine.resume(co);
+    local ok, e = coroutine.resume(co); return ok, e == t, coroutine.status(co), coroutine.resume(co)` -/
+example : (match run default 40 [.local_ 1 [("t", .none)] [.table []],
+             .local_ 2 [("co", .none)] [.call (.index (.var "coroutine") (.str "create".toUTF8))
+               [.func (.mk [] false [.callS 2 (.call (.index (.var "coroutine") (.str "yield".toUTF8)) [.int 1#64]),
+                                     .callS 2 (.call (.var "error") [.var "t"])])]],
+             .callS 3 (.call (.index (.var "coroutine") (.str "resume".toUTF8)) [.var "co"]),
+             .local_ 4 [("ok", .none), ("e", .none)] [.call (.index (.var "coroutine") (.str "resume".toUTF8)) [.var "co"]],
+             .return_ 5 [.var "ok", .bin .eq (.var "e") (.var "t"),
+                         .paren (.call (.index (.var "coroutine") (.str "status".toUTF8)) [.var "co"]),
+                         .paren (.call (.index (.var "coroutine") (.str "resume".toUTF8)) [.var "co"])]] [] with
+           | .done rets _ => rets
+           | _ => []) = [.bool false, .bool true, .ofString "dead", .bool false] := by decide +kernel
 
 end GoluaVerif.Props.C11
